@@ -183,6 +183,7 @@ def run(ctx):
                     comb = cfg2.get_fcn([[data, data2], [phsp, phsp2], [bg, None], None], batch=31)
                     vc, gc_ = comb.nll_grad({})
                     vc0 = float(comb({}))
+                    vch = float(comb.nll_grad_hessian({})[0])
                 ref2, min2 = lik.reference_nll(model, amp2, data2, phsp2, None, w_bkg, bg_frac, None, params)
                 ref1, _ = lik.reference_nll(model, amp2, data, phsp, bg, w_bkg, bg_frac, None, params)
                 g_extra = 0.0
@@ -190,8 +191,8 @@ def run(ctx):
                     g_extra = sum((params[k] - mu) ** 2 / (2 * sg**2) for k, (mu, sg) in gauss.items())
                 want = ref1 + ref2 + g_extra
                 if min2 > 1e-5:
-                    ctx.check("CombineFCN == sum of parts", rel(float(vc), want) <= 1.0 and rel(vc0, want) <= 1.0,
-                              lambda: dict(desc(), combined=(float(vc), vc0), parts=(ref1, ref2, g_extra)), mechanism="CombineFCN (%s)" % model)
+                    ctx.check("CombineFCN == sum of parts", rel(float(vc), want) <= 1.0 and rel(vc0, want) <= 1.0 and rel(vch, want) <= 1.0,
+                              lambda: dict(desc(), combined=(float(vc), vc0, vch), parts=(ref1, ref2, g_extra)), mechanism="CombineFCN (%s)" % model)
             except Exception as e:
                 ctx.violation("CombineFCN == sum of parts", ctx.exc_witness(e, **desc()), mechanism="CombineFCN raises (%s)" % model)
         if i < ctx.nshards:
